@@ -7,6 +7,8 @@ CONSTANTS NV = 4
           MaxHeight = 2
           MaxId = 1
           MaxSigns = 4
+          NWho = 1
+          Rich = FALSE
           EmitOn = TRUE
 VIEW View
 CONSTRAINT Bound
